@@ -147,11 +147,14 @@ impl<T: Clone> Host<T> {
         let p = ArrayViewMutD::from_shape(IxDyn(&pshape), &mut self.buf[a..b]).unwrap();
         apply(p, &shape, &layout)
     }
-    /// Consumes the host and returns an owned array with this (possibly non-standard) layout
-    /// (no slack: only for ownership-kind tests).
+    /// Consumes the host and returns an owned array with this (possibly non-standard) layout.
+    /// The owned array keeps the whole buffer, slack included, as its allocation (its data
+    /// pointer is offset into it), so a wrongly rebuilt view still stays inside the allocation.
     pub fn into_owned_layout(self) -> ArrayD<T> {
         let (a, b) = (self.slack, self.slack + self.psize());
-        let parent = ArrayD::from_shape_vec(IxDyn(&self.pshape), self.buf[a..b].to_vec()).unwrap();
+        let whole = Array1::from_vec(self.buf);
+        let window = whole.slice_move(ndarray::s![a..b]);
+        let parent = window.into_shape_with_order(IxDyn(&self.pshape)).expect("contiguous window reshapes");
         apply(parent, &self.shape, &self.layout)
     }
     /// Offsets (in elements, relative to the start of the buffer) of the view's cells.
